@@ -9,7 +9,7 @@ from pyvc.report import PropertyRun, Task
 from pyvc.tasks import repo, budget, result_dict
 from pyvc.solve import Obligation, discharge
 from pyvc.symex import explore, Obj
-from contracts.decoder_c import DecodeTask
+from contracts.decoder_c import DecodeTask, ClaimPgnTask
 
 FIELDS = [('uniqueNumber', 'int', 21), ('manufacturerCode', 'str', 11), ('deviceInstanceLower', 'int', 3), ('deviceInstanceUpper', 'int', 5),
           ('deviceFunction', 'str', 8), ('spare', 'int', 1), ('deviceClass', 'str', 7), ('systemInstance', 'int', 4), ('industryGroup', 'str', 3),
@@ -109,6 +109,7 @@ def main(tier):
     for combined in (True, False):
         for claim in (True, False):
             run.add(DecodeTask('C11', combined, claim))
+    run.add(ClaimPgnTask('C11'))
     run.add(IsoNameTask())
     from props.C04 import TransitionTask
     for m in range(2, 9):
